@@ -395,6 +395,8 @@ def _fx(which):
         entry = entry_locksets(ctx, tu, cg)
         if which == 1:
             r18_1(ctx, tu, entry)
+        elif which == 7:
+            r18_7(ctx, tu, cg)
         else:
             r18_2_3(ctx, tu, cg, entry)
     return runner
@@ -404,6 +406,7 @@ FIXTURES = {
     'R18.1': {'src': 'C18/cli.c', 'run': _fx(1), 'expect': 'file_queue_get:queue_head:under-queue_mutex'},
     'R18.2': {'src': 'C18/cli.c', 'run': _fx(2), 'expect': 'handle:writes:total_count'},
     'R18.3': {'src': 'C18/cli.c', 'run': _fx(2), 'expect': 'handle:stdout-under-output_mutex'},
+    'R18.7': {'src': 'C18/cli.c', 'run': _fx(7), 'expect': 'counting_thread:CB_ARGS.current_count:reset-for-every-file'},
 }
 
 
@@ -493,6 +496,81 @@ def r18_6(ctx, tu):
                    'of the scan and the queued files are never scanned' % (cap, N))
 
 
+def r18_7(ctx, tu, cg):
+    """what the scan callback accumulates per file starts from scratch for every file: a
+    field of the callback's user data that the callback side modifies (`current_count++`)
+    is assigned inside the worker's per-file loop before the scan of each file.  Otherwise
+    the figure printed for a file contains the matches of the files the same thread scanned
+    before it - the output depends on how many threads share the work."""
+    from ..effects import direct_effects
+    prog = ctx.prog
+    # the record handed to the scanner as callback user data
+    recs = set()
+    for f in tu.fn_list:
+        for c in f.calls():
+            if c.get('callee') == 'yr_scanner_set_callback':
+                a = f.call_args(c)
+                if len(a) > 2:
+                    x = cu.strip_casts(f, a[2])
+                    if x is not None and x['k'] == 'un' and x['op'] == '&':
+                        x = cu.strip_casts(f, f.kid(x, 0))
+                    t = (x.get('t') or '') if x is not None else ''
+                    t = t.replace('struct ', '').replace('*', '').strip()
+                    if t in prog.records or ('_' + t) in prog.records:
+                        recs.add(t)
+    ctx.require(recs or ctx.fixture, 'R18.7: callback user-data record not identified')
+    workers = []
+    for f in tu.fn_list:
+        for c in f.calls():
+            if c.get('callee') and any(a['k'] in ('while', 'for', 'do') for a in f.ancestors(c)):
+                g = prog.fn(c['callee'], tu)
+                tgt = [g] if g is not None else []
+                names = set([c['callee']]) | set(h.name for h in (cg.reachable(tgt) if tgt else []))
+                if any(nm.startswith('yr_scanner_scan_') or nm.startswith('yr_rules_scan_') for nm in names):
+                    workers.append((f, c))
+    n = 0
+    for rec in sorted(recs):
+        rnames = set([rec, '_' + rec, rec.lstrip('_')])
+        wset = set(w[0].name for w in workers)
+        written = {}
+        for f in tu.fn_list:
+            if f.name in wset or f.name in ('main', '_tmain', 'wmain'):
+                continue
+            for e, nd in direct_effects(f):
+                if e[0] == 'field' and e[1] in rnames:
+                    written.setdefault(e[2].split('.')[0].replace('[]', ''), (f, nd))
+        for f, call in workers:
+            for fld, (wf, wn) in sorted(written.items()):
+                n += 1
+                ok_at = {}
+
+                def is_assign(x, fld=fld, f=f):
+                    if x['k'] != 'bin' or x['op'] != '=':
+                        return False
+                    l = cu.strip_casts(f, f.kid(x, 0))
+                    return l is not None and l['k'] == 'member' and l['fld'] == fld and l.get('rec') in rnames
+
+                def step(x, facts):
+                    if is_assign(x):
+                        return frozenset(facts) | {'fresh'}
+                    if x is call:
+                        return frozenset(facts) - {'fresh'}
+                    return facts
+
+                def observe(x, facts):
+                    if x is call:
+                        ok_at[0] = 'fresh' in facts
+                paths.must_flow(f, set(), step, None, observe)
+                ok = ok_at.get(0, False)
+                ctx.ob('R18.7', '%s:%s.%s:reset-for-every-file' % (f.name, rec, fld), ok, f.loc(call),
+                       '%s (modified by %s) is assigned in front of the scan of every file' % (fld, wf.name)
+                       if ok else
+                       '%s.%s is modified by the callback side (%s, %s) and is not assigned between two '
+                       'scans of this loop: what is reported for a file includes what accumulated for the '
+                       'files this thread scanned before' % (rec, fld, wf.name, wf.loc(wn)))
+    return n
+
+
 def run(ctx):
     cg = CallGraph(ctx.prog)
     tu = cli_tu(ctx)
@@ -505,3 +583,5 @@ def run(ctx):
     r18_5(ctx, tu)
     r18_6(ctx, tu)
     ctx.floor('R18.6', 3)
+    r18_7(ctx, tu, cg)
+    ctx.floor('R18.7', 1)
